@@ -152,7 +152,7 @@ func runGated(key string, qa, qb reqSpec, ownA, ownB, where string) (res cellRes
 // half-written response), parks, B (kind KindB) is served to completion, A answers from
 // its state.
 
-var localKinds = []string{"exc", "rexc", "iexc", "uexc", "excmsg", "catch", "obj", "arr", "clo", "loop", "func", "method", "resp", "mw-obj", "mw-loop", "mw-resp", "capl", "cap"}
+var localKinds = []string{"exc", "rexc", "iexc", "uexc", "excmsg", "catch", "obj", "arr", "clo", "loop", "func", "method", "resp", "mw-obj", "mw-loop", "mw-resp", "capl", "cap", "obj", "boot"}
 
 type localCell struct{ KindA, KindB string }
 
@@ -182,10 +182,11 @@ func runLocalCell(c localCell, idx int) cellResult {
 		if k, ok := strings.CutPrefix(kind, "mw-"); ok {
 			server, kind = "lgatemw", k // behind a closure and a class middleware
 		}
-		if kind == "cap" {
-			// shape 7: by-value captures of handler, middleware and helper closure; the handler
-			// parks between its writes to the captured arrays/scalars
-			return stdRequest("cap", "s7", "/s7", method, own, 3, [2]string{"X-Gate-Name", gate})
+		// load shapes 7..9 have a gate point of their own (between their writes / inside the
+		// method that works on the copy): by-value captures, per-request object with
+		// $this-closures, copies of boot-time arrays
+		if sh, ok := map[string][3]string{"cap": {"cap", "s7", "/s7"}, "obj": {"obj", "s8", "/s8"}, "boot": {"boot", "s9", "/s9"}}[kind]; ok {
+			return stdRequest(sh[0], sh[1], sh[2], method, own, 3, [2]string{"X-Gate-Name", gate})
 		}
 		return stdRequest(server, "lgate", "/lgate", method, own, 2, [2]string{"X-Kind", kind}, [2]string{"X-Gate-Name", gate})
 	}
@@ -224,12 +225,19 @@ func allGateCells() []gateCell {
 type seqCell struct {
 	Src   string
 	Throw bool
-	Cap   int // > 0: by-value capture cell (shape 7 with n = Cap-1 instead of a source read)
+	Cap   int    // > 0: a load shape with n = Cap-1 instead of a source read
+	Shape string // which one ("" = s7)
+}
+
+var seqShapes = map[string][4]string{
+	"":   {"cap", "s7", "/s7", "by-value-capture"},
+	"s8": {"obj", "s8", "/s8", "per-request-object"},
+	"s9": {"boot", "s9", "/s9", "boot-state-copy"},
 }
 
 func (c seqCell) key() string {
 	if c.Cap > 0 {
-		return fmt.Sprintf("seq/by-value-capture/n=%d", c.Cap-1)
+		return fmt.Sprintf("seq/%s/n=%d", seqShapes[c.Shape][3], c.Cap-1)
 	}
 	k := "seq/src=" + sourceByCode(c.Src).Name
 	if c.Throw {
@@ -249,7 +257,8 @@ func runSeqCell(c seqCell, idx int) (res cellResult) {
 	}
 	mk := func(owner string) reqSpec {
 		if c.Cap > 0 {
-			return stdRequest("cap", "s7", "/s7", method, owner, c.Cap-1)
+			sh := seqShapes[c.Shape]
+			return stdRequest(sh[0], sh[1], sh[2], method, owner, c.Cap-1)
 		}
 		x := [][2]string{{"X-Src", c.Src}}
 		if c.Throw {
@@ -335,8 +344,10 @@ func allSeqCells() []seqCell {
 	for _, s := range sources {
 		out = append(out, seqCell{Src: s.Code}, seqCell{Src: s.Code, Throw: true})
 	}
-	for n := 0; n <= 5; n++ {
-		out = append(out, seqCell{Cap: n + 1})
+	for _, shape := range []string{"", "s8", "s9"} {
+		for n := 0; n <= 5; n++ {
+			out = append(out, seqCell{Cap: n + 1, Shape: shape})
+		}
 	}
 	return out
 }
